@@ -22,8 +22,21 @@ fn mv(clause: &str, props: &[&'static str], what: String, facts: &[(&str, Value)
 pub const MAX_TOLERATED_SILENCE: usize = 16;
 pub const RETRY_BUDGET: usize = 6;
 
+#[derive(Clone, Debug, Default)]
+pub struct Summary {
+    /// sender: the final block was acknowledged; receiver: the final block was received and acknowledged
+    pub finished: bool,
+    pub error_delivered: bool,
+    pub max_consecutive_failures: usize,
+    pub tolerated_abort_cause: bool,
+}
+
 pub fn check_all(tr: &Trace) -> Vec<MViol> {
-    let mut v = match tr.cfg.role {
+    check_all_s(tr).0
+}
+
+pub fn check_all_s(tr: &Trace) -> (Vec<MViol>, Summary) {
+    let (mut v, s) = match tr.cfg.role {
         Role::Sender => check_sender(tr),
         Role::Receiver => check_receiver(tr),
     };
@@ -31,7 +44,7 @@ pub fn check_all(tr: &Trace) -> Vec<MViol> {
         v.push(mv("T5-no-termination", &["C07"], format!("worker still receiving after {} answers (horizon)", crate::modea::horizon(&tr.cfg)), &[]));
     }
     v.extend(check_multiplicity(tr));
-    v
+    (v, s)
 }
 
 fn is_failure_answer(role: Role, a: &Answer, expect_next: u64) -> bool {
@@ -48,7 +61,7 @@ fn is_failure_answer(role: Role, a: &Answer, expect_next: u64) -> bool {
     }
 }
 
-pub fn check_sender(tr: &Trace) -> Vec<MViol> {
+pub fn check_sender(tr: &Trace) -> (Vec<MViol>, Summary) {
     let cfg: &XCfg = &tr.cfg;
     let content = &tr.content[..];
     let kfinal = cfg.kfinal();
@@ -254,10 +267,10 @@ pub fn check_sender(tr: &Trace) -> Vec<MViol> {
     if tr.now_calls == 0 && any_data {
         push(&mut out, mv("MACHINERY-hook-bypassed", &[], "the virtual clock was never consulted by a sending worker".into(), &[]));
     }
-    out
+    (out, Summary { finished, error_delivered, max_consecutive_failures, tolerated_abort_cause })
 }
 
-pub fn check_receiver(tr: &Trace) -> Vec<MViol> {
+pub fn check_receiver(tr: &Trace) -> (Vec<MViol>, Summary) {
     let cfg: &XCfg = &tr.cfg;
     let mut out: Vec<MViol> = vec![];
     let mut seen_once: std::collections::BTreeSet<String> = Default::default();
@@ -362,8 +375,9 @@ pub fn check_receiver(tr: &Trace) -> Vec<MViol> {
             Event::Closed { .. } => {}
         }
     }
+    let summary = Summary { finished: final_acked, error_delivered, max_consecutive_failures, tolerated_abort_cause: false };
     if tr.horizon_hit || tr.stuck {
-        return out;
+        return (out, summary);
     }
     if final_acked {
         // U3 / C13: the completed file is there and is exactly the in-order blocks once each
@@ -391,7 +405,7 @@ pub fn check_receiver(tr: &Trace) -> Vec<MViol> {
             push(&mut out, mv("L1-gave-up-early", &["C04"], format!("receiver ended{} before the final block although at most {} consecutive receive attempts failed", if tr.panicked { " by panic" } else { "" }, max_consecutive_failures), &[("role", json!("receiver")), ("panic", json!(tr.panicked))]));
         }
     }
-    out
+    (out, summary)
 }
 
 /// M1 (C16): every burst is a concatenation of groups of exactly N+1 identical consecutive datagrams (DATA, ACK k>=1)
